@@ -303,7 +303,13 @@ func run1(c Case, s *search.Search, rec *evid.Rec) error {
 		var buf strings.Builder
 		sw := &stopWriter{inner: &buf, after: j, ch: ch}
 		cnt := search.Counters{}
-		go func() { <-ch; phCh <- time.Now() }()
+		go func() {
+			select {
+			case <-ch:
+			case <-time.After(10 * time.Second): // fewer info lines than expected: do not ponder for ever
+			}
+			phCh <- time.Now()
+		}()
 		opts = append(opts, search.WithOutput(sw), search.WithCounters(&cnt))
 		sc, m, p := s.Go(ri.b, opts...)
 		sw.once.Do(func() { close(ch) })
